@@ -32,7 +32,7 @@ Record cshape := { c_dim : N; c_strict : bool; c_triv : triv }.                 
 Record csshape := { cs_dim : N; cs_rows : list cshape }.                         (* a constraint system *)
 Inductive gkind := G_line | G_ray | G_point | G_closure.
 Record gshape := { g_dim : N; g_kind : gkind }.
-Record gsshape := { gs_dim : N; gs_rows : list gkind }.
+Record gsshape := { gs_dim : N; gs_rows : list gkind }.   (* kinds as seen through Generator_System::const_iterator: closure points matched by an equal point are invisible *)
 Record cgshape := { cg_dim : N; cg_proper : bool; cg_triv : triv }.              (* a congruence *)
 Record cgsshape := { cgs_dim : N; cgs_rows : list cgshape }.
 Record recv := { r_topo : topo; r_dim : N; r_empty : bool }.                     (* receiver / polyhedron argument *)
@@ -120,6 +120,7 @@ Definition rungs (r : recv) (c : call) : ladder :=
   | Refine_with_congruence cg => [ (dim_gt (cg_dim cg) n, ia) ]
   | Add_congruences cgs => [ (dim_gt (cgs_dim cgs) n, ia); (cgs_loop (cgs_rows cgs), ia) ]
   | Refine_with_congruences cgs => [ (dim_gt (cgs_dim cgs) n, ia) ]
+  | Binary Swap y => [ (negb (topo_eqb (r_topo r) (r_topo y)), ia) ]        (* m_swap only requires equal topologies *)
   | Binary _ y => [ (negb (topo_eqb (r_topo r) (r_topo y)), ia); (negb (n =? r_dim y), ia) ]
   | Concatenate y => [ (negb (topo_eqb (r_topo r) (r_topo y)), ia); (dim_gt (r_dim y) (max_dim - n), Length_error) ]
   | Affine_image v e d0 | Affine_preimage v e d0 => [ (d0, ia); (dim_gt e n, ia); (dim_gt (var_dim v) n, ia) ]
@@ -201,6 +202,7 @@ Definition doc_pre (r : recv) (c : call) : Prop :=
   | Refine_with_congruence cg => cg_dim cg <= n
   | Add_congruences cgs => cgs_dim cgs <= n /\ cgs_loop (cgs_rows cgs) = false
   | Refine_with_congruences cgs => cgs_dim cgs <= n
+  | Binary Swap y => r_topo r = r_topo y
   | Binary _ y => compat r y
   | Concatenate y => r_topo r = r_topo y /\ r_dim y <= max_dim - n
   | Affine_image v e d0 | Affine_preimage v e d0 => d0 = false /\ e <= n /\ v < n
@@ -278,6 +280,8 @@ Ltac norm_hyps :=
   | H : (_ =? _) = true |- _ => apply N.eqb_eq in H
   | H : (_ =? _) = false |- _ => apply N.eqb_neq in H
   end.
+
+Ltac brute := cbn [first_fail andb orb negb]; intuition (try discriminate; try congruence; try lia).
 
 (* ---- precond_complete, operation by operation ---- *)
 Definition complete_for (c : call) : Prop := forall r, check r c = None <-> doc_pre r c.
@@ -363,9 +367,9 @@ Proof. exact (pc_gen_affine_image_lhs l rs e). Qed.
 
 Theorem pc_binary op y : complete_for (Binary op y).
 Proof.
-  intros r. unfold check, rungs, doc_pre, compat. cbn [first_fail].
-  destruct (topo_eqb (r_topo r) (r_topo y)) eqn:E1; norm_hyps; cbn [negb]; [|split; [discriminate|intros [H _]; congruence]].
-  destruct (r_dim r =? r_dim y) eqn:E2; norm_hyps; cbn [negb]; split; intros H; try discriminate; try reflexivity; try tauto; try (destruct H; congruence).
+  intros r. unfold check, rungs, doc_pre, compat.
+  pose proof (topo_eqb_eq (r_topo r) (r_topo y)) as T. pose proof (N.eqb_eq (r_dim r) (r_dim y)) as D.
+  destruct op; destruct (topo_eqb (r_topo r) (r_topo y)), (r_dim r =? r_dim y); brute.
 Qed.
 
 Theorem pc_concatenate y : complete_for (Concatenate y).
@@ -447,16 +451,10 @@ Proof. destruct g; cbn; split; intros H; try reflexivity; discriminate. Qed.
 
 Theorem pc_add_generator g : complete_for (Add_generator g).
 Proof.
-  intros r. unfold check, rungs, doc_pre, closed_p. cbn [first_fail].
-  destruct (topo_eqb (r_topo r) TC) eqn:E1; norm_hyps; cbn [andb];
-  destruct (is_closure_k (g_kind g)) eqn:E2; try (apply gkind_closure in E2);
-  try (split; [discriminate|intros [H _]; exfalso; apply H; auto]);
-  (destruct (dim_gt (g_dim g) (r_dim r)) eqn:E3; norm_hyps; [split; [discriminate|intros [_ [H _]]; lia]|]);
-  (destruct (r_empty r) eqn:E4; cbn [andb];
-   [destruct (is_point_k (g_kind g)) eqn:E5; cbn [negb]; [apply gkind_point in E5|]|]);
-  split; intros H; try discriminate; try reflexivity;
-  try (repeat split; auto; try (intros [A B]; congruence); try (intros; congruence); fail);
-  try (destruct H as [_ [_ H]]; specialize (H eq_refl); apply gkind_point in H; congruence).
+  intros r. unfold check, rungs, doc_pre, closed_p.
+  pose proof (topo_eqb_eq (r_topo r) TC) as T. pose proof (gkind_closure (g_kind g)) as K1. pose proof (gkind_point (g_kind g)) as K2.
+  pose proof (dim_gt_false (g_dim g) (r_dim r)) as D.
+  destruct (topo_eqb (r_topo r) TC), (is_closure_k (g_kind g)), (dim_gt (g_dim g) (r_dim r)), (r_empty r), (is_point_k (g_kind g)); brute.
 Qed.
 
 Lemma pc_add_gs_aux r gs :
@@ -464,16 +462,10 @@ Lemma pc_add_gs_aux r gs :
                (negb (match gs_rows gs with [] => true | _ => false end) && r_empty r && negb (has_points gs), ia) ] = None
   <-> ~ (closed_p r /\ has_closure_points gs = true) /\ gs_dim gs <= r_dim r /\ (gs_rows gs <> [] -> r_empty r = true -> has_points gs = true).
 Proof.
-  unfold closed_p. cbn [first_fail].
-  destruct (topo_eqb (r_topo r) TC) eqn:E1; norm_hyps; cbn [andb];
-  destruct (has_closure_points gs) eqn:E2;
-  try (split; [discriminate|intros [H _]; exfalso; apply H; auto]);
-  (destruct (dim_gt (gs_dim gs) (r_dim r)) eqn:E3; norm_hyps; [split; [discriminate|intros [_ [H _]]; lia]|]);
-  (destruct (gs_rows gs) as [|g0 gr] eqn:E6; cbn [negb andb];
-   [|destruct (r_empty r) eqn:E4; cbn [andb]; [destruct (has_points gs) eqn:E5; cbn [negb]|]]);
-  split; intros H; try discriminate; try reflexivity;
-  try (repeat split; auto; try (intros [A B]; congruence); try (intros; congruence); fail);
-  try (destruct H as [_ [_ H]]; assert (X : g0 :: gr <> []) by discriminate; specialize (H X eq_refl); congruence).
+  unfold closed_p.
+  pose proof (topo_eqb_eq (r_topo r) TC) as T. pose proof (dim_gt_false (gs_dim gs) (r_dim r)) as D.
+  destruct (gs_rows gs) as [|g0 gr] eqn:E0;
+  destruct (topo_eqb (r_topo r) TC), (has_closure_points gs), (dim_gt (gs_dim gs) (r_dim r)), (r_empty r), (has_points gs); brute.
 Qed.
 Theorem pc_add_generators gs : complete_for (Add_generators gs).
 Proof. intros r. apply pc_add_gs_aux. Qed.
@@ -584,7 +576,7 @@ Definition overflow_call (r : recv) (c : call) : Prop :=
 Theorem exn_class_documented r c e :
   check r c = Some e -> (e = Length_error /\ overflow_call r c) \/ (e = Invalid_argument /\ ~ overflow_call r c).
 Proof.
-  unfold check. destruct c; cbn [rungs overflow_call];
+  unfold check. destruct c; try (match goal with o : binop |- _ => destruct o end); cbn [rungs overflow_call];
   repeat match goal with
   | |- context [match ?x with [] => _ | _ :: _ => _ end] => destruct x
   | |- context [if ?b then _ else _] => let E := fresh "E" in destruct b eqn:E
@@ -643,7 +635,7 @@ Proof.
   (* pigeonhole: the n preimages are pairwise distinct positions different from i0, all < n *)
   assert (Q : forall m, (m <= n)%nat -> exists l, length l = m /\ NoDup l /\ (forall i, In i l -> (i < n)%nat /\ i <> i0 /\ exists k, (k < m)%nat /\ pf_get pf i = Some (N.of_nat k))).
   { induction m as [|m IH]; intros Hm.
-    - exists []. repeat split; [constructor|intros i []].
+    - exists []. split; [reflexivity|]. split; [apply NoDup_nil|intros i []].
     - destruct (IH ltac:(lia)) as [l [L1 [L2 L3]]]. destruct (P m ltac:(lia)) as [i [Hi Gi]].
       exists (i :: l). split; [cbn; lia|]. split.
       + constructor; [|exact L2]. intros Hin. destruct (L3 i Hin) as [_ [_ [k [Hk Gk]]]]. rewrite Gi in Gk. inversion Gk. lia.
